@@ -105,7 +105,7 @@ def DGood (s : DState) (σ : Store) : Prop :=
 theorem dgood_init : DGood dinit Store.init := ⟨fun _ => .null, dinv_init, fun _ _ => rfl, rfl⟩
 
 /-- the held-cell operation on variable `v` (taken out, operated on, put back) refines the store update -/
-theorem put_back {s : DState} {σ : Store} {g : Nat → Val} (i : DInv s.h s.vars zeroE g)
+theorem put_back {s : DState} {σ : Store} {g : Nat → Val} {e0 : Nat → Nat} (i : DInv s.h s.vars e0 g)
     (hrel : ∀ w, w < nvars → absCell g (s.vars w) = σ w) (htmp : s.vars tmpVar = .null) (v : Nat) (hv : v < nvars)
     (y : Val) (n : Nat) (h' : Heap) (c' : Cell) (g' : Nat → Val)
     (st : CellStep s.h (upd s.vars v .null) (fun x => cellCnt (s.vars v) x) g (s.vars v) y n h' c' g') :
